@@ -81,6 +81,43 @@ def dump_region(region, mesh):
     return d
 
 
+def derivative_probes(mesh):
+    """The library's own difference operators (MeshRegion.DDX / DDY, used for ShiftTorsion and
+    the x-y curvature formulation) applied to fields that are exactly linear in x (the radial
+    psi grid) and in y (cell index times dy, continued through each y-group): the result must
+    be 1 at every location, region joins included.  Returns {myID: {"ddx": .., "ddy": ..}}."""
+    from hypnotoad.core.multilocationarray import MultiLocationArray
+
+    dyv = float(mesh.dy_scalar)
+    for g in mesh.y_groups:
+        y0 = 0.0
+        for r in g:
+            pv = np.array(r.psi_vals, dtype=float)
+            fx = MultiLocationArray(r.nx, r.ny)
+            fy = MultiLocationArray(r.nx, r.ny)
+            jc = y0 + (np.arange(r.ny) + 0.5) * dyv
+            jf = y0 + np.arange(r.ny + 1) * dyv
+            fx.centre = pv[1::2][:, None] * np.ones((1, r.ny))
+            fx.xlow = pv[0::2][:, None] * np.ones((1, r.ny))
+            fx.ylow = pv[1::2][:, None] * np.ones((1, r.ny + 1))
+            fx.corners = pv[0::2][:, None] * np.ones((1, r.ny + 1))
+            fy.centre = np.ones((r.nx, 1)) * jc[None, :]
+            fy.xlow = np.ones((r.nx + 1, 1)) * jc[None, :]
+            fy.ylow = np.ones((r.nx, 1)) * jf[None, :]
+            fy.corners = np.ones((r.nx + 1, 1)) * jf[None, :]
+            r.__dict__["verif_x"], r.__dict__["verif_y"] = fx, fy
+            y0 += r.ny * dyv
+    out = {}
+    try:
+        for r in mesh.regions.values():
+            out[r.myID] = dict(ddx=mla_dump(r.DDX("#verif_x")), ddy=mla_dump(r.DDY("#verif_y")))
+    finally:
+        for r in mesh.regions.values():
+            r.__dict__.pop("verif_x", None)
+            r.__dict__.pop("verif_y", None)
+    return out
+
+
 def dump_side(eq, mesh, extra=None):
     side = dict(extra or {})
     e = {}
@@ -119,6 +156,11 @@ def dump_side(eq, mesh, extra=None):
                  region_lookup={"%s|%d" % k: v for k, v in mesh.region_lookup.items()})
         side["mesh"] = m
         side["regions"] = [dump_region(r, mesh) for r in mesh.regions.values()]
+        if all(hasattr(r, "dx") and hasattr(r, "dy") for r in mesh.regions.values()):
+            try:
+                side["derivative_probes"] = derivative_probes(mesh)
+            except Exception as ex:  # noqa: BLE001
+                side["derivative_probes_error"] = repr(ex)
     return side
 
 
